@@ -184,7 +184,7 @@ def enum_two_step(tier):
 @st.composite
 def hyp_cases(draw, tier):
     typed = draw(st.booleans())
-    flavour = draw(st.sampled_from(["str", "str", "tuple", "dc", "obj_cb", "dictwrap", "obj_fwd", "obj_sub", "int"]))
+    flavour = draw(st.sampled_from(["str", "str", "tuple", "dc", "obj_cb", "dictwrap", "obj_fwd", "obj_sub", "int", "str_kid"]))
     case = draw(gen_ops.histories(typed=typed, max_ops=40 if tier == "quick" else 80, fresh=flavour != "str", big=8))
     case["flavour"] = flavour
     if draw(st.sampled_from([0] * 7 + [1])):
